@@ -105,17 +105,17 @@ func runLocalFlood(in input) lib.Case {
 	})
 	stopped := make(chan struct{})
 	go func() { V.Stop(); close(stopped) }()
-	closedReached := g.WaitHit(4 * time.Second)
+	closedReached := g.WaitHit(2500 * time.Millisecond)
 	g.Release()
 	// while the victim's dispatcher is still busy: can the survivor go on?
-	postReturned := boundedDo(4*time.Second, func() { S.Send(V.ServerIdentity, &TMsg{ID: k + 1}) })
-	canaryOK := boundedDo(4*time.Second, func() { S.Send(C.ServerIdentity, &TMsg{ID: k + 2}) }) &&
+	postReturned := boundedDo(2*time.Second, func() { S.Send(V.ServerIdentity, &TMsg{ID: k + 1}) })
+	canaryOK := boundedDo(2*time.Second, func() { S.Send(C.ServerIdentity, &TMsg{ID: k + 2}) }) &&
 		waitUntil(func() bool { return atomic.LoadInt32(&canary) == 1 }, 3*time.Second)
 	sendsReturned := false
 	select {
 	case <-floodDone:
 		sendsReturned = true
-	case <-time.After(2 * time.Second):
+	case <-time.After(1 * time.Second):
 	}
 	close(gate) // the busy dispatcher returns
 	stopReturned := false
